@@ -93,6 +93,11 @@ pub fn go_to_definition(
 
     for folder in find_folders(&state.folders, &loc) {
         let tree = folder.module(&loc).unwrap();
+        // The span of a qualified variable also covers the dot and any blanks or comments
+        // around it: only answer when the position is on one of its identifiers.
+        if syntax_at::<Identifier<_>>(tree, index).is_none() {
+            continue;
+        }
         if let Some(v) = syntax_at::<Variable<_>>(tree, index) {
             if let Some(Definition::External(ext)) = v.node().syntax().core_ref().definition() {
                 let definition = ext.node(folder.modules().unwrap());
